@@ -201,6 +201,73 @@ def h_destripe(H):
             S.explore(body)
 
 
+def replay_destripe_options(vals, oid):
+    """native: the same settings dictionaries handed to three successive calls (a loop over batches): every batch referenced / filtered the same way"""
+    rng = np.random.default_rng(11)
+    import neuropixel
+    h = neuropixel.trace_header(version=2, nshank=4)
+    bad = []
+    for op in ("median", "average"):
+        kk = {"collection": h["shank"].copy(), "operator": op}
+        bk = {"N": 3, "Wn": 300 / 30000 * 2, "btype": "highpass"}
+        kk0, bk0 = dict(kk), dict(bk)
+        for b in range(3):
+            x = rng.standard_normal((384, 1200)).astype(np.float32) + np.repeat(h["shank"][:, None] * 3.0, 1200, axis=1).astype(np.float32) * np.sin(np.arange(1200) / 4.0)[None, :].astype(np.float32)
+            want = V.destripe(x, 30000.0, h=h, k_filter=False, k_kwargs={"collection": h["shank"].copy(), "operator": op}, butter_kwargs=dict(bk0))
+            got = V.destripe(x, 30000.0, h=h, k_filter=False, k_kwargs=kk, butter_kwargs=bk)
+            if not np.allclose(got, want, atol=1e-6):
+                bad.append({"operator": op, "call": b, "max_difference_to_a_call_with_fresh_dictionaries": float(np.max(np.abs(got - want)))})
+        if set(kk) != set(kk0) or set(bk) != set(bk0):
+            bad.append({"operator": op, "settings_after_the_calls": sorted(kk), "settings_before": sorted(kk0)})
+    return {"failed": bool(bad), "cases": bad[:4]}
+
+
+@harness(PROPERTY, "destripe_options", functions=["ibldsp.voltage:destripe", "ibldsp.voltage:_get_destripe_parameters"], replay=replay_destripe_options,
+         clause="with the same filter, gain-control settings and options: the caller's settings reach the spatial step on every call, and the settings dictionaries are left as they were given")
+def h_destripe_options(H):
+    for k_filter in (True, False):
+        S = H.session(f"destripe.options.k{k_filter}")
+
+        def body(it, k_filter=k_filter):
+            nc, ns = z3.Ints("nc ns")
+            fs = z3.Real("fs")
+            it.ctx.assume(z3.And(nc >= 1, ns >= 8, fs > 3000))
+            h = {"sample_shift": A.fresh_array("sample_shift", "float64", (nc,)), "x": A.fresh_array("hx", "float64", (nc,)), "y": A.fresh_array("hy", "float64", (nc,))}
+            coll = A.fresh_array("collection", "float64", (nc,))
+            k_kwargs = ({"ntr_pad": 40, "ntr_tap": 10, "lagc": 300, "butter_kwargs": {"N": 3, "Wn": 0.02, "btype": "highpass"}, "collection": coll} if k_filter
+                        else {"collection": coll, "operator": "average"})
+            butter_kwargs = {"N": 4, "Wn": 0.03, "btype": "highpass"}
+            kk0, bk0 = dict(k_kwargs), dict(butter_kwargs)
+            seen = {"spatial": [], "butter": []}
+
+            def spatial(it_, a, k):
+                seen["spatial"].append(dict(k))
+                return A.fresh_array("spatial", "float64", A.as_sarr(a[0]).shape)
+
+            def butter(it_, a, k):
+                seen["butter"].append(dict(k))
+                return ("SOS", dict(k))
+            opaque = lambda name, pos: (lambda it_, a, k: A.fresh_array(name, "float64", A.as_sarr(a[pos]).shape))      # noqa
+            it.session.contracts[scipy.signal.butter] = butter
+            it.session.contracts[scipy.signal.sosfiltfilt] = opaque("hp", 1)
+            it.session.contracts[F.fshift] = opaque("fshift", 0)
+            it.session.contracts[V.kfilt] = spatial
+            it.session.contracts[V.car] = spatial
+            tag = f"k{k_filter}"
+            for call in (1, 2):
+                x = A.fresh_array(f"x{call}", "float32", (nc, ns))
+                run_function(it, V.destripe, [x, SV(fs)], {"h": h, "k_filter": k_filter, "k_kwargs": k_kwargs, "butter_kwargs": butter_kwargs})
+            same = lambda d, d0: set(d) == set(d0) and all(d[q] is d0[q] or (not isinstance(d0[q], (SArr, dict)) and d[q] == d0[q]) for q in d0)      # noqa
+            it.ctx.oblige(f"destripe.options.settings_left_as_given.{tag}", z3.BoolVal(same(k_kwargs, kk0) and same(butter_kwargs, bk0)), "post",
+                          "the k_kwargs / butter_kwargs dictionaries hold the same entries after the calls (a caller re-using them for the next batch gets the same processing)")
+            ok_sp = len(seen["spatial"]) == 2 and all(set(sp) == set(kk0) and all(sp[q] is kk0[q] or (not isinstance(kk0[q], (SArr, dict)) and sp[q] == kk0[q]) or (isinstance(kk0[q], dict) and sp[q] == kk0[q]) for q in kk0) for sp in seen["spatial"])
+            it.ctx.oblige(f"destripe.options.spatial_step_gets_the_callers_settings.{tag}", z3.BoolVal(bool(ok_sp)), "post",
+                          "on the first and on the second call alike, the spatial step (k-filter / common reference) is given exactly the caller's settings, channel groups included")
+            ok_b = len(seen["butter"]) == 2 and all({q: v for q, v in b_.items() if q != "output"} == bk0 for b_ in seen["butter"])
+            it.ctx.oblige(f"destripe.options.high_pass_gets_the_callers_settings.{tag}", z3.BoolVal(bool(ok_b)), "post", assume=False)
+        S.explore(body)
+
+
 def replay_kfilt(vals, oid):
     """kfilt without gain control (lagc None or 0) is linear and does not depend on the amplitude scale; with it, out == filtered(agc data) * gain"""
     rng = np.random.default_rng(4)
